@@ -7,6 +7,9 @@ Helper lemmas (no property statements) for Props/C04_Rate.lean: the refresher's 
                                     the bus, then the sequencer, then ZQCS); the invariant `epi ≤ Tr` is inductive under `Budget`,
                                     so a request always finds the refresher idle (`NL.lost`)
  * `refAcc_iff`, `owed_step`, `Acct`, `acct_step`   exact accounting of AUTO REFRESH commands against requests and time
+ * `epi_dec`, `reach_idle`          an episode is over within `epi` cycles
+ * `zqDue`, `zpot`, `zq_step`, `reach_zq`   a due ZQ calibration: the bound `zpot` on the cycles until its ZQC command is taken
+                                    goes down on every clock edge (next request of the postponer, wait for the bus, the refresh burst, tRP)
 -/
 import LitedramVerif.Proofs.CtlLive
 namespace RefreshRate
@@ -717,5 +720,259 @@ theorem reach_idle (c : Controller.Cfg) (hwf : CtlInv.WF c) (hb : Budget c) (inp
       simp only [List.length_cons] at hlen
       obtain ⟨k, hk, hkf⟩ := ih _ _ _ h' (fun x hx => hins x (by simp [hx])) (by omega)
       exact ⟨k + 1, by omega, by simpa [CtlLive.runCtl] using hkf⟩
+
+/-! ### ZQ calibration -/
+/-- a ZQ calibration is due: the calibration timer has expired (now or earlier) and no calibration was started since -/
+def zqDue (r : Refresher.State) : Bool := zqTimerDone r || r.zqPending
+
+theorem zq_due_step (c : Refresher.Cfg) (r : Refresher.State) (ready : Bool) (z : Nat) (hz : c.tZQCS = some z)
+    (hd : zqDue r = true) (hns : zqStart c r = false) : zqDue (Refresher.step c r ready) = true := by
+  have : (Refresher.step c r ready).zqPending = (if zqStart c r then false else if zqTimerDone r then true else r.zqPending) := by
+    simp [Refresher.step, hz, zqStart]
+  simp only [zqDue, this, hns, Bool.false_eq_true, if_false]
+  simp only [zqDue, Bool.or_eq_true] at hd
+  rcases hd with h | h
+  · simp [h]
+  · cases zqTimerDone r <;> simp [h]
+
+/-- the multiplexer takes a ZQ CALIBRATION (short) from the refresher in this cycle -/
+def zqAcc (c : Controller.Cfg) (s : Controller.State) : Bool :=
+  (roOf c s).valid && (s.fsm == .refresh) && s.rf.we && !s.rf.ras && !s.rf.cas
+
+theorem zqAcc_of (c : Controller.Cfg) (hwf : CtlInv.WF c) (s : Controller.State) (g : Ghost) (h : CInv c s g)
+    (hfs : s.rf.fsm = .doZqcs) (hx : s.rf.zqCounter = c.rf.tRP + 1) : zqAcc c s = true := by
+  have hI := h.rf
+  have hrp := hwf.rf.tRP
+  have hregs := hI.regs
+  have hexp : expected c.rf s.rf = .zqc := by
+    simp only [expected, hx]
+    have h3 : ¬ (c.rf.tRP + 1 = 1) := by omega
+    simp [h3]; omega
+  rw [hexp] at hregs
+  simp only [regsAre] at hregs
+  have hm : s.fsm = .refresh := h.inRef (by simp [inRef, hfs])
+  have hnd : s.rf.zqDone = false := by
+    cases hd : s.rf.zqDone
+    · rfl
+    · have := hI.zqDone0 hd; omega
+  have hv : (roOf c s).valid = true := by simp [roOf, Refresher.out, hfs, hnd]
+  simp [zqAcc, hv, hm, hregs.1, hregs.2.1, hregs.2.2]
+
+def zA (c : Controller.Cfg) : Nat := psiMax c + 1 + c.rf.postponing * M c.rf + c.rf.tRP + 3
+
+/-- bound on the cycles until a due ZQ calibration command is taken by the multiplexer -/
+def zpot (c : Controller.Cfg) (s : Controller.State) (w : Nat → Nat) : Nat :=
+  match s.rf.fsm with
+  | .idle => (if s.rf.reqO then 0 else Tr c.rf s.rf) + zA c
+  | .waitBm => (if s.fsm = .refresh then 0 else psi c s w) + 1 + c.rf.postponing * M c.rf + (c.rf.tRP + 2)
+  | .doRefresh => Wd c.rf s.rf + (c.rf.tRP + 1)
+  | .doZqcs =>
+    if 1 ≤ s.rf.zqCounter ∧ s.rf.zqCounter ≤ c.rf.tRP + 1 then c.rf.tRP + 1 - s.rf.zqCounter
+    else zqRem c.rf s.rf + c.rf.postponing * c.rf.tREFI + zA c + 1
+
+/-- a calibration is due, or its command sequence is already running and the ZQC command is still to come -/
+def zD (c : Controller.Cfg) (s : Controller.State) : Prop :=
+  zqDue s.rf = true ∨ (s.rf.fsm = .doZqcs ∧ 1 ≤ s.rf.zqCounter ∧ s.rf.zqCounter ≤ c.rf.tRP + 1)
+
+theorem zq_step (c : Controller.Cfg) (hwf : CtlInv.WF c) (hb : Budget c) (hwr : c.rf.withRefresh = true) (z : Nat)
+    (hz : c.rf.tZQCS = some z) (s : Controller.State) (g : Ghost) (w : Nat → Nat) (ins : Array BankIn) (hins : InsOk c ins)
+    (h : NL c s g w) (hd : zD c s) (hna : zqAcc c s = false) :
+    zD c (Controller.step c s ins).1 ∧ zpot c (Controller.step c s ins).1 (wG c s ins w) + 1 ≤ zpot c s w := by
+  have h' := nl_step c hwf hb s g w ins hins h
+  have hrfI := h.cinv.rf
+  obtain ⟨hF1, hF2, hF3, hF4⟩ := rf_step_facts c.rf hwf.rf s.rf g.pd (s.fsm == .refresh) hrfI h.exd h.zqd
+  obtain ⟨hZ1, hZ2⟩ := rf_zq_facts c.rf hwf.rf s.rf g.pd (s.fsm == .refresh) hrfI h.zqd
+  obtain ⟨hT1, hT2, hT3, hT4, hT5⟩ := tr_step c.rf s.rf (s.fsm == .refresh) h.rng.1 h.rng.2
+  have hrf' : (Controller.step c s ins).1.rf = Refresher.step c.rf s.rf (s.fsm == .refresh) := step_rf c s ins
+  have hfsm' := RefresherInv.step_fsm c.rf s.rf (s.fsm == .refresh)
+  obtain ⟨hzc', hzd'⟩ := step_zq_some c.rf s.rf (s.fsm == .refresh) z hz
+  have hz1 := hwf.rf.tZQ z hz
+  have hrp := hwf.rf.tRP
+  have hLz : c.rf.tRP + z ≠ 0 := by omega
+  have hzcnt := hrfI.zcntLe
+  rw [hz] at hzcnt; simp only [Option.getD_some] at hzcnt
+  rw [tl_next _ _ _ hLz hzcnt] at hzc'
+  rw [← hrf'] at hF1 hF2 hF3 hF4 hZ1 hZ2 hT1 hT2 hT3 hT4 hT5 hfsm' hzc' hzd'
+  have hP := hwf.rf.post
+  have hdue' : zqDue s.rf = true → zqStart c.rf s.rf = false → zqDue (Controller.step c s ins).1.rf = true := by
+    intro a b; rw [hrf']; exact zq_due_step c.rf s.rf _ z hz a b
+  have hTr' : Tr c.rf (Controller.step c s ins).1.rf ≤ c.rf.postponing * c.rf.tREFI := by
+    have h1 := h'.rng.1; have h2 := h'.rng.2
+    simp only [Tr]
+    have : (Controller.step c s ins).1.rf.postCount * c.rf.tREFI ≤ (c.rf.postponing - 1) * c.rf.tREFI := Nat.mul_le_mul_right _ (by omega)
+    have e : c.rf.postponing * c.rf.tREFI = (c.rf.postponing - 1) * c.rf.tREFI + c.rf.tREFI := by
+      have : c.rf.postponing = (c.rf.postponing - 1) + 1 := by omega
+      conv => lhs; rw [this, Nat.add_mul, Nat.one_mul]
+    omega
+  cases hfs : s.rf.fsm with
+  | idle =>
+    have hdu : zqDue s.rf = true := by
+      rcases hd with a | ⟨a, _⟩
+      · exact a
+      · rw [hfs] at a; cases a
+    have hns : zqStart c.rf s.rf = false := by simp [zqStart, hfs]
+    refine ⟨Or.inl (hdue' hdu hns), ?_⟩
+    cases hq : s.rf.reqO with
+    | true =>
+      have e : (Controller.step c s ins).1.rf.fsm = .waitBm := by rw [hfsm']; simp [RefresherInv.fsmNext, hfs, hq, hwr]
+      have hle := psi_le c (Controller.step c s ins).1 (wG c s ins w) h'.mok
+      simp only [zpot, e, hfs, hq, if_true, zA]
+      split <;> omega
+    | false =>
+      have e : (Controller.step c s ins).1.rf.fsm = .idle := by rw [hfsm']; simp [RefresherInv.fsmNext, hfs, hq]
+      simp only [zpot, e, hfs, hq, Bool.false_eq_true, if_false]
+      by_cases htr : Tr c.rf s.rf = 1
+      · rw [hT3.mpr htr, htr]; simp only [if_true]; omega
+      · have := hT5 htr
+        cases hq' : (Controller.step c s ins).1.rf.reqO
+        · simp only [Bool.false_eq_true, if_false]; omega
+        · exact absurd (hT3.mp hq') htr
+  | waitBm =>
+    have hdu : zqDue s.rf = true := by
+      rcases hd with a | ⟨a, _⟩
+      · exact a
+      · rw [hfs] at a; cases a
+    have hns : zqStart c.rf s.rf = false := by simp [zqStart, hfs]
+    refine ⟨Or.inl (hdue' hdu hns), ?_⟩
+    by_cases hmr : s.fsm = .refresh
+    · obtain ⟨e1, e2⟩ := (hF2 hfs).1 (by simp [hmr])
+      simp only [zpot, e1, e2, hfs, hmr, if_true]; omega
+    · have e1 := (hF2 hfs).2 (by simp [hmr])
+      have hwg : wG c s ins w = wStep c s ins w := by simp [wG, hfs, hmr]
+      have hp1 := psi_pos c s w
+      simp only [zpot, e1, hwg, hfs, hmr, if_false]
+      rcases live_step c s ins w (h.linv hfs hmr) hfs hmr with hr | ⟨_, _, hdd⟩
+      · simp only [hr, if_true]; omega
+      · split <;> omega
+  | doRefresh =>
+    have hdu : zqDue s.rf = true := by
+      rcases hd with a | ⟨a, _⟩
+      · exact a
+      · rw [hfs] at a; cases a
+    have hzc0 : s.rf.zqCounter = 0 := by have := hrfI.fsmI; simp only [hfs] at this; exact this.1
+    by_cases hsd : seqDone s.rf = true
+    · -- the sequence is over and a calibration is due: DO-ZQCS, counter 1
+      have hw : wantsZqcs c.rf s.rf = true := by
+        simp only [wantsZqcs, hz, Option.isSome_some, Bool.true_and]; exact hdu
+      have e : (Controller.step c s ins).1.rf.fsm = .doZqcs := by rw [hfsm']; simp [RefresherInv.fsmNext, hfs, hsd, hw]
+      have hzs : zqStart c.rf s.rf = true := by simp [zqStart, hfs, hsd, hw]
+      have e2 : (Controller.step c s ins).1.rf.zqCounter = 1 := by rw [hzc', hzc0, hzs]; simp; omega
+      have hW := Wd_pos c.rf s.rf
+      refine ⟨Or.inr ⟨e, by omega, by omega⟩, ?_⟩
+      simp only [zpot, e, e2, hfs]
+      have : 1 ≤ 1 ∧ 1 ≤ c.rf.tRP + 1 := ⟨Nat.le_refl _, by omega⟩
+      rw [if_pos this]; omega
+    · have e : (Controller.step c s ins).1.rf.fsm = .doRefresh := by rw [hfsm']; simp [RefresherInv.fsmNext, hfs, hsd]
+      have hns : zqStart c.rf s.rf = false := by simp [zqStart, hfs, hsd]
+      refine ⟨Or.inl (hdue' hdu hns), ?_⟩
+      rcases hF1 hfs with ⟨_, e2⟩ | ⟨e1, _⟩ | ⟨e1, _, _⟩
+      · simp only [zpot, e, hfs]; omega
+      · rw [e] at e1; cases e1
+      · rw [e] at e1; cases e1
+  | doZqcs =>
+    have hns : zqStart c.rf s.rf = false := by simp [zqStart, hfs]
+    by_cases hin : 1 ≤ s.rf.zqCounter ∧ s.rf.zqCounter ≤ c.rf.tRP + 1
+    · -- the ZQC command is still to come
+      have hne : s.rf.zqCounter ≠ c.rf.tRP + 1 := fun e => by
+        rw [zqAcc_of c hwf s g h.cinv hfs e] at hna; cases hna
+      have hnd : s.rf.zqDone = false := by
+        cases hdn : s.rf.zqDone
+        · rfl
+        · have := hrfI.zqDone0 hdn; omega
+      have e : (Controller.step c s ins).1.rf.fsm = .doZqcs := by rw [hfsm']; simp [RefresherInv.fsmNext, hfs, hnd]
+      have e2 : (Controller.step c s ins).1.rf.zqCounter = s.rf.zqCounter + 1 := by
+        rw [hzc']
+        have h1 : ¬ s.rf.zqCounter = c.rf.tRP + z := by omega
+        have h2 : ¬ s.rf.zqCounter = 0 := by omega
+        simp [h1, h2]
+      refine ⟨Or.inr ⟨e, by omega, by omega⟩, ?_⟩
+      simp only [zpot, e, e2, hfs]
+      have h3 : 1 ≤ s.rf.zqCounter + 1 ∧ s.rf.zqCounter + 1 ≤ c.rf.tRP + 1 := by omega
+      rw [if_pos h3, if_pos hin]; omega
+    · -- this calibration's command is past: the due flag waits for the next episode
+      have hdu : zqDue s.rf = true := by
+        rcases hd with a | ⟨_, a⟩
+        · exact a
+        · exact absurd a hin
+      refine ⟨Or.inl (hdue' hdu hns), ?_⟩
+      simp only [zpot, hfs, if_neg hin]
+      rcases hZ1 hfs with ⟨e1, e2⟩ | e1
+      · have hnd : s.rf.zqDone = false := by
+          cases hdn : s.rf.zqDone
+          · rfl
+          · rw [hfsm'] at e1; simp [RefresherInv.fsmNext, hfs, hdn] at e1
+        have hzne : s.rf.zqCounter ≠ 0 := fun e0 => by rw [h.zqd hfs e0] at hnd; cases hnd
+        have hnin : ¬ (1 ≤ (Controller.step c s ins).1.rf.zqCounter ∧ (Controller.step c s ins).1.rf.zqCounter ≤ c.rf.tRP + 1) := by
+          rw [hzc']
+          by_cases hl : s.rf.zqCounter = c.rf.tRP + z
+          · simp [hl]
+          · simp only [hl, if_false, hzne]; omega
+        simp only [e1, if_neg hnin]; omega
+      · cases hq' : (Controller.step c s ins).1.rf.reqO
+        · simp only [e1, Bool.false_eq_true, if_false]
+          have : 1 ≤ zqRem c.rf s.rf := by simp only [zqRem, hz]; omega
+          omega
+        · simp only [e1, if_true]
+          have : 1 ≤ zqRem c.rf s.rf := by simp only [zqRem, hz]; omega
+          omega
+
+theorem reach_zq (c : Controller.Cfg) (hwf : CtlInv.WF c) (hb : Budget c) (hwr : c.rf.withRefresh = true) (z : Nat)
+    (hz : c.rf.tZQCS = some z) (inputs : List (Array BankIn)) :
+    ∀ (s : Controller.State) (g : Ghost) (w : Nat → Nat), NL c s g w → zD c s → (∀ ins ∈ inputs, InsOk c ins) →
+      zpot c s w ≤ inputs.length → ∃ k, k ≤ zpot c s w ∧ zqAcc c (CtlLive.runCtl c s (inputs.take k)) = true := by
+  induction inputs with
+  | nil =>
+    intro s g w h hd _ hlen
+    cases ha : zqAcc c s
+    · -- the potential is positive unless the command is being taken
+      exfalso
+      simp only [List.length_nil] at hlen
+      have hrp := hwf.rf.tRP
+      cases hfs : s.rf.fsm <;> simp only [zpot, hfs, zA] at hlen
+      · omega
+      · omega
+      · have := Wd_pos c.rf s.rf; omega
+      · by_cases hin : 1 ≤ s.rf.zqCounter ∧ s.rf.zqCounter ≤ c.rf.tRP + 1
+        · rw [if_pos hin] at hlen
+          have e : s.rf.zqCounter = c.rf.tRP + 1 := by omega
+          rw [zqAcc_of c hwf s g h.cinv hfs e] at ha; cases ha
+        · rw [if_neg hin] at hlen; omega
+    · exact ⟨0, Nat.zero_le _, by simpa [CtlLive.runCtl] using ha⟩
+  | cons ins rest ih =>
+    intro s g w h hd hins hlen
+    cases ha : zqAcc c s
+    · obtain ⟨hd', hdec⟩ := zq_step c hwf hb hwr z hz s g w ins (hins ins (by simp)) h hd ha
+      have h' := nl_step c hwf hb s g w ins (hins ins (by simp)) h
+      simp only [List.length_cons] at hlen
+      obtain ⟨k, hk, hkf⟩ := ih _ _ _ h' hd' (fun x hx => hins x (by simp [hx])) (by omega)
+      exact ⟨k + 1, by omega, by simpa [CtlLive.runCtl] using hkf⟩
+    · exact ⟨0, Nat.zero_le _, by simpa [CtlLive.runCtl] using ha⟩
+
+def zMax (c : Controller.Cfg) : Nat :=
+  2 * (c.rf.postponing * c.rf.tREFI) + zA c + c.rf.tRP + c.rf.tZQCS.getD 0 + 4
+
+theorem zpot_le (c : Controller.Cfg) (hwf : CtlInv.WF c) (hb : Budget c) (z : Nat) (hz : c.rf.tZQCS = some z)
+    (s : Controller.State) (g : Ghost) (w : Nat → Nat) (h : NL c s g w) : zpot c s w ≤ zMax c := by
+  have hTr : Tr c.rf s.rf ≤ c.rf.postponing * c.rf.tREFI := by
+    have h1 := h.rng.1; have h2 := h.rng.2
+    have hP := hwf.rf.post
+    simp only [Tr]
+    have : s.rf.postCount * c.rf.tREFI ≤ (c.rf.postponing - 1) * c.rf.tREFI := Nat.mul_le_mul_right _ (by omega)
+    have e : c.rf.postponing * c.rf.tREFI = (c.rf.postponing - 1) * c.rf.tREFI + c.rf.tREFI := by
+      have : c.rf.postponing = (c.rf.postponing - 1) + 1 := by omega
+      conv => lhs; rw [this, Nat.add_mul, Nat.one_mul]
+    omega
+  have hmain := h.main
+  have hpsi := psi_le c s w h.mok
+  have hzc := h.cinv.rf.zcntLe
+  rw [hz] at hzc; simp only [Option.getD_some] at hzc
+  simp only [zMax, hz, Option.getD_some]
+  cases hfs : s.rf.fsm <;> simp only [zpot, hfs, zA]
+  · split <;> omega
+  · split <;> omega
+  · simp only [epi, hfs, reduceCtorEq, if_false] at hmain; omega
+  · split
+    · omega
+    · simp only [zqRem, hz]; split <;> omega
 
 end RefreshRate
